@@ -73,7 +73,6 @@ CFG = {
         "Swat4.C11.update_newer_resolved_machine",
         "Swat4.C11.remove_defended_machine",
         "Swat4.C11.remove_current_machine",
-        "Swat4.C11.driver_reads_are_model",
         "Swat4.C11.driver_reads_refine",
         "Swat4.C11.facts_decode_plain",
         "Swat4.C11.sortByKey_perm",
@@ -82,6 +81,11 @@ CFG = {
         "Swat4.C11.renderServers_order_independent",
         "Swat4.C11.hmget_keys_nodup",
         "Swat4.C11.filter_render_eq",
+    ],
+    # proved in the Lean files (and built with the module) but NOT audited as property theorems: each is a read-back of a
+    # definition, glue between two names, true by type, or a restatement of an audited theorem
+    "supporting": [
+        {"name": "Swat4.C11.driver_reads_are_model", "why": "`rfl` glue: the four read arms of `Drv.runCall` unfolded (runCall_get / _filter / _count: `rfl`); the content is driver_reads_refine / get_refines / filter_eq_pred / count_refines / countByStatus_refines"},
     ],
     "shards": (4, 16),
     "nontrivial": _c11_nontrivial,
@@ -116,7 +120,7 @@ CFG = {
                 "update time in half-open ranges, never-refreshed records fail every active bound); get_refines, count_refines, "
                 "countByStatus_refines; update_refused / update_refused_machine - an Update whose resolver refuses (stored version newer) returns the "
                 "stored record with no error and changes nothing, at both levels, as servers.go does (return existing, nil); the prose sub-clauses of the statement as equations on the specification and, through the refinement theorems, on the writer machine with hypotheses on the store: add_fresh (absent address: caller's record stored at version+1 with update time now, reply = stored record), add_refused (existing address, resolver refuses: 'exists', nothing changes; add never compares versions), add_resolved, update_missing (not-found, no row created), update_current / update_equal_version (stored version <= caller's, equal included: caller's record at version+1, resolver not consulted), update_newer_resolved (stored version newer: the resolver gets the stored record and its result is stored at its version+1), update_resolver_exactly_when_newer, remove_missing / remove_current, remove_defended (stored version newer and resolver refuses: nothing changes, reply is still nil - success), remove_newer_resolved (erases the resolved record's key), and *_machine corollaries; C11_main - by induction over any history of calls from the empty keyspace the model's results equal "
-                "the specification's item by item; driver_write_refines - the driver's own call runner (Drv.runCall) has this property for writes; driver_reads_are_model / driver_reads_refine - its read arms render exactly getM, the list of filter_eq_pred, HLEN and countByM, hence the specification's get / filter (up to order) / count / countByStatus; sortByKey_perm / sortByKey_sorted / sortByKey_order_independent / renderServers_order_independent - the driver-only insertion sort behind renderServers is a permutation of its input, ascending in the address key, and for lists with pairwise distinct keys independent of the input order, so rendered listings are compared exactly up to order; hmget_keys_nodup / filter_render_eq - every Filter result on a consistent store has distinct keys, hence its rendering is the same string as the rendering of the specification's filter. "
+                "the specification's item by item; driver_write_refines - the driver's own call runner (Drv.runCall) has this property for writes; driver_reads_are_model [supporting `rfl` glue, not audited] / driver_reads_refine - its read arms render exactly getM, the list of filter_eq_pred, HLEN and countByM, hence the specification's get / filter (up to order) / count / countByStatus; sortByKey_perm / sortByKey_sorted / sortByKey_order_independent / renderServers_order_independent - the driver-only insertion sort behind renderServers is a permutation of its input, ascending in the address key, and for lists with pairwise distinct keys independent of the input order, so rendered listings are compared exactly up to order; hmget_keys_nodup / filter_render_eq - every Filter result on a consistent store has distinct keys, hence its rendering is the same string as the rendering of the specification's filter. "
                 "The same is proved for the other two repositories via RelI (instances:items / updated vs AbsState.instances) and RelQ (probes:items / queue vs "
                 "AbsState.queue read as a finite map id -> item, nextId strictly above every stored id): insAdd_refines / insRemove_refines / insGet_refines / "
                 "insClear_refines (inclusive bound at both levels, HDEL reply = rows removed) / insCount_refines, enqueue_refines (incl. the dropped case), "
